@@ -46,7 +46,7 @@ def struct_type(rank: int) -> str:
 @st.composite
 def one_alloc(draw, tier="quick"):
     elt = draw(st.sampled_from(ELTS))
-    align = draw(st.sampled_from([None, 0, 1, 8, 64, 64, 256, 10]))
+    align = draw(st.sampled_from([None, 1, 2, 8, 64, 64, 256, 4096]))  # memref.alloc: positive power of two or absent
     space = draw(st.sampled_from(["L1"] * 18 + ["L3", None]))
     src = [draw(st.sampled_from(["testop", "testop", "testop", "const", "dim", "dim"] + (["arg"] if draw(st.integers(0, 9)) == 0 else [])))
            for _ in range(4)]
@@ -183,12 +183,12 @@ def memories(draw):
     """Two memory descriptions under the names the tool registers (L1 and the small Test memory). Mostly the real ones."""
     out = []
     for dflt in DEFAULT_MEMS:
-        k = draw(st.integers(0, 3))
-        if k <= 1:
+        k = draw(st.sampled_from([0] * 5 + [5] * 6 + [11]))
+        if k <= 4:
             out.append(dict(dflt))
             continue
         cap = draw(st.sampled_from([64, 100, 100, 256, 1000, 4096, 65536]))
-        if k == 2:
+        if k <= 10:
             start = 256 * draw(st.sampled_from([0, 1, 16, 4096, 0x100000, 0x800000 - 256]))
         else:
             start = draw(st.sampled_from([4, 8, 100, 0x10000010, 0x10000040, 1000]))
@@ -201,7 +201,7 @@ _REF = st.tuples(st.sampled_from([0, 0, 1, 1, 2]), st.integers(0, 11)).map(list)
 
 @st.composite
 def _size_spec(draw, cap):
-    k = draw(st.integers(0, 9))
+    k = draw(st.sampled_from([0] + [1, 2] * 3 + [3] * 10))
     if k == 0:
         return dict(fill=draw(st.sampled_from([-1, 0, 0, 1])))
     if k <= 2:
@@ -210,22 +210,17 @@ def _size_spec(draw, cap):
     return dict(size=draw(st.integers(1, hi)))
 
 
+_ALIGN_POOL = ALIGNS * 12 + [10, 14, 3, 10] + [None, 0]
+
+
 @st.composite
-def _alloc_stmt(draw, mems, dyn_ok=False):
-    mem = draw(st.sampled_from([0, 0, 1, 1, 1]))
+def _alloc_stmt(draw, mems, dyn_ok=False, main=1):
+    mem = draw(st.sampled_from([main] * 5 + [1 - main]))
     a = dict(op="alloc", mem=mem, elt=draw(st.sampled_from(["i8", "i8", "i32"])), rank2=draw(st.sampled_from([0, 0, 2, 3, 4])),
              aty=draw(st.sampled_from(["i64", "i64", "i32"])))
     a.update(draw(_size_spec(mems[mem]["cap"])))
-    k = draw(st.integers(0, 19))
-    if k == 0:
-        a["align"] = None
-    elif k == 1:
-        a["align"] = 0
-    elif k <= 3:
-        a["align"] = draw(st.sampled_from([10, 14, 3]))
-    else:
-        a["align"] = draw(st.sampled_from(ALIGNS))
-    if dyn_ok and draw(st.integers(0, 2)) == 0:
+    a["align"] = draw(st.sampled_from(_ALIGN_POOL))
+    if dyn_ok and draw(st.sampled_from([True, False, False])):
         a["dynsize"] = True
     return a
 
@@ -265,13 +260,16 @@ def _ctl_stmt(draw, depth=0):
 def place_case(draw, tier="quick"):
     mode = draw(st.sampled_from(["static", "minimalloc", "minimalloc", "auto"]))
     mems = draw(memories())
-    dyn_ok = mode == "auto" and draw(st.integers(0, 5)) == 0
+    dyn_ok = mode == "auto" and draw(st.sampled_from([True] + [False] * 5))
     n = draw(st.integers(3, 12 if tier == "quick" else 18))
-    stmts = [draw(_alloc_stmt(mems, dyn_ok))]
+    main = draw(st.sampled_from([0, 1, 1]))
+    stmts = [draw(_alloc_stmt(mems, dyn_ok, main))]
+    if draw(st.booleans()):
+        stmts.append(draw(_alloc_stmt(mems, dyn_ok, main)))
     for _ in range(n - 1):
-        k = draw(st.integers(0, 19))
+        k = draw(st.sampled_from(list(range(20))))
         if k <= 5:
-            stmts.append(draw(_alloc_stmt(mems, dyn_ok)))
+            stmts.append(draw(_alloc_stmt(mems, dyn_ok, main)))
         elif k <= 9:
             stmts.append(draw(_view_stmt()))
         elif k <= 15:
@@ -283,7 +281,7 @@ def place_case(draw, tier="quick"):
     # tail: late uses, preferably through views
     for _ in range(draw(st.integers(0, 3))):
         stmts.append(dict(op="use", refs=[[draw(st.sampled_from([1, 1, 0])), draw(st.integers(0, 11))]]))
-    ret = draw(_REF) if draw(st.integers(0, 7)) == 0 else None
+    ret = draw(_REF) if draw(st.sampled_from([True] + [False] * 7)) else None
     return dict(mode=mode, mems=mems, stmts=stmts, ret=ret)
 
 
